@@ -84,6 +84,11 @@ def _dw_case(case):
         for p, ww in zip(P, W):
             pw += ww * np.asarray(run.op.f.eval(tuple(p)), dtype=float)
         steps.append((np.array(run.op.get_result(), dtype=float).copy(), pw, run.sa.get_total_num_points()))
+        if nodal and config.get("grid", "trapezoidal") == "trapezoidal" and config.get("boundary", True):
+            # a user monitoring the run also interpolates the current combination: looking must not change anything (the unobserved
+            # twin run below has to end in the same structure, result and point count)
+            d = config["d"]
+            run.sa([tuple(0.3 + 0.1 * k for k in range(d)), tuple(0.55 for _ in range(d)), tuple(1.0 - 0.2 * k for k in range(d))])
     r = dw.build(config, history, comps, n, observer=observer, perform_kwargs={"solutions_storage": store})
     sa, op = r.sa, r.op
     res = np.array(r.result[3], dtype=float)
@@ -109,6 +114,9 @@ def _dw_case(case):
     res2 = np.array(r2.result[3], dtype=float)
     if not _close(res2, res, mag):
         fails.append(fail("reevaluate_at_end_changes_result", "without %r, with reevaluate_at_end %r" % (res, res2), key))
+    if dw.canon(r2.sa) != dw.canon(sa) or r2.sa.get_total_num_points() != sa.get_total_num_points():
+        fails.append(fail("observation_changes_run", "observed run (points/weights and interpolation queried at every evaluation): %d points, unobserved twin: %d points; structures equal: %r"
+                          % (sa.get_total_num_points(), r2.sa.get_total_num_points(), dw.canon(r2.sa) == dw.canon(sa)), key))
     # from-scratch re-evaluation of the final refinement (done last: it may disturb the instance)
     ev = sa.evaluate_final_combi()
     if not _close(np.asarray(ev[0], dtype=float), res, mag):
@@ -188,6 +196,9 @@ def _es_case(case):
     res2 = np.array(r2.result[3], dtype=float)
     if not _close(res2, res, mag):
         fails.append(fail("reevaluate_at_end_changes_result", "without %r, with reevaluate_at_end %r" % (res, res2), key))
+    if es.canon(r2.sa) != es.canon(sa) or r2.sa.get_total_num_points() != sa.get_total_num_points():
+        fails.append(fail("twin_run_differs", "same history with reevaluate_at_end: %d points vs %d points; structures equal: %r"
+                          % (r2.sa.get_total_num_points(), sa.get_total_num_points(), es.canon(r2.sa) == es.canon(sa)), key))
     ev = sa.evaluate_final_combi()
     if not _close(np.asarray(ev[0], dtype=float), res, mag):
         fails.append(fail("evaluate_final_combi_differs", "reported %r, evaluate_final_combi %r" % (res, np.asarray(ev[0])), key))
@@ -360,7 +371,10 @@ def main(ctx):
     for reb in (True, False):
         for bnd in (True, False):
             dwc.append(({"strategy": "dw", "d": 2, "lmin": 1, "lmax": 2, "version": 6, "rebalancing": reb, "boundary": bnd,
-                         "s": 2 if (q and reb and bnd) or not q else 1, "func": "vector"}, 2 if q else 3))
+                         "s": 2 if (q and reb and bnd) or not q else 1, "func": "vector"}, 2))
+            if not q:    # (pairs of intervals at depth 3 are ~10^5 transitions per configuration: depth 3 with single intervals instead)
+                dwc.append(({"strategy": "dw", "d": 2, "lmin": 1, "lmax": 2, "version": 6, "rebalancing": reb, "boundary": bnd,
+                             "s": 1, "func": "vector"}, 3))
     dwc.append(({"strategy": "dw", "d": 2, "lmin": 1, "lmax": 2, "version": 6, "rebalancing": True, "boundary": True, "s": 1,
                  "func": "scalar"}, 2))
     dwc.append(({"strategy": "dw", "d": 2, "lmin": 1, "lmax": 3, "version": 6, "rebalancing": True, "boundary": True, "s": 1,
